@@ -1367,7 +1367,10 @@ ENCODER_QUERIES = ("fcfs", "dot_bracket", "all_dot_brackets")
 OBJECT_QUERIES = ENCODER_QUERIES + ("elements", "without_isolated", "without_pseudoknots", "sequence", "attr:pairs", "attr:entries")
 
 
-def history_fact(chk, queries: Sequence[str] = ENCODER_QUERIES, rule: str = "history-independent", process: bool = False) -> Optional[str]:
+DERIVATIONS = ("without_isolated", "without_pseudoknots", "elements")
+
+
+def history_fact(chk, queries: Sequence[str] = ENCODER_QUERIES, rule: str = "history-independent", process: bool = False, actions: Sequence[str] = ()) -> Optional[str]:
     """Every ordered pair of queries on one object answers as on a fresh copy; with process=True also: a solve that faulted
     for one object does not change what a later, healthy solve of an equal structure gives."""
     repo = chk.repo
@@ -1401,6 +1404,7 @@ def history_fact(chk, queries: Sequence[str] = ENCODER_QUERIES, rule: str = "his
         return attempt(lambda: it.call(it.getattr_(recv, q, None), (), {}, None))
 
     usable = [q for q in queries if q.startswith("attr:") or f"{CLS}.{q}" in members]
+    only_first = [a for a in actions if f"{CLS}.{a}" in members and a not in usable]  # asked first, their own answers are another rule's
     dropped: List[str] = []
     problems: List[Tuple[str, str, Any, Any]] = []
     n = 0
@@ -1416,7 +1420,14 @@ def history_fact(chk, queries: Sequence[str] = ENCODER_QUERIES, rule: str = "his
                 except NotEvaluable as ex:
                     usable.remove(q)
                     dropped.append(f"{q} ({str(ex)[:60]})")
-            for q1, q2 in itertools.permutations(usable, 2):
+            for a in list(only_first):
+                try:
+                    it, r = fresh(regs, lp.World(_by_name_solution(opt)))
+                    ask(it, r, a)
+                except NotEvaluable as ex:
+                    only_first.remove(a)
+                    dropped.append(f"{a} ({str(ex)[:60]})")
+            for q1, q2 in list(itertools.permutations(usable, 2)) + [(a, q) for a in only_first for q in usable]:
                 if problems:
                     break
                 n += 1
@@ -1439,7 +1450,12 @@ def history_fact(chk, queries: Sequence[str] = ENCODER_QUERIES, rule: str = "his
                         except Exception:
                             continue
                         if _norm_result(r1._attrs[name]) != _norm_result(v0):
-                            state = f"; after `{q1}` the object's `{name}` is {_show_state(r1._attrs[name])}, on a fresh copy it is {_show_state(v0)}"
+                            a1, a0 = r1._attrs[name], v0
+                            if isinstance(a1, list) and isinstance(a0, list) and len(a1) == len(a0):
+                                k = next((i for i in range(len(a1)) if _norm_result(a1[i]) != _norm_result(a0[i])), 0)
+                                state = f"; after `{q1}` element {k} of the object's `{name}` is {_show_state(a1[k])}, on a fresh copy it is {_show_state(a0[k])}"
+                            else:
+                                state = f"; after `{q1}` the object's `{name}` is {_show_state(a1)}, on a fresh copy it is {_show_state(a0)}"
                             break
                     q1, q2 = q1.replace("attr:", ""), q2.replace("attr:", "")
                     problems.append((anchor.where, f"`{q2}` asked after `{q1}` on the same BpSeq object answers differently than on a fresh copy, for the stems {show(regs)} ({relation_text(regs)}){state}: an earlier query changes state a later one reads", want_q2, got))
@@ -1468,12 +1484,38 @@ def history_fact(chk, queries: Sequence[str] = ENCODER_QUERIES, rule: str = "his
                     if g1 != g2 and not problems:
                         conv = repo.func(MOD, f"{CLS}.convert_to_dot_bracket")
                         problems.append((conv.where, f"after {first_fault} for one object, a healthy solve of an equal structure (stems {show(regs)}) in the same process returns {val!r} instead of {val2!r}: the outcome of a faulted solve is remembered beyond the call", g2, g1))
+        if process and not problems and f"{CLS}.convert_to_dot_bracket" in members:
+            # a healthy solve of structure B after a healthy solve of structure A in the same process: A and B have the same
+            # stem anchors (first 5' index, partner) and order type but other stem lengths, so that the optimum differs
+            conv = repo.func(MOD, f"{CLS}.convert_to_dot_bracket")
+            for arcs in (((0, 2), (1, 3)), ((0, 2), (1, 4), (3, 5)), ((0, 3), (1, 4), (2, 5))):
+                for la, lb in (([2, 5, 1], [5, 2, 4]), ([1, 1, 6], [6, 3, 1])):
+                    A, B = embed(arcs, scale=2, lengths=la[: len(arcs)]), embed(arcs, scale=2, lengths=lb[: len(arcs)])
+                    n += 1
+
+                    def solve(it, regs):
+                        rec = Recorder()
+                        ents = entries_of(regs)
+                        rec.sequence = "".join(e.sequence for e in ents)
+                        rec.regions = [tuple(r) for r in regs]
+                        obj = it.instance(CLS, attrs={"entries": ents, "pairs": {e.index_: e.pair for e in ents if e.pair}}, over={"__make_dot_bracket": rec.fill})
+                        w = it.globals["pulp"].world
+                        w.outcome = _by_name_solution(optimum(regs))
+                        kind, val = attempt(lambda: it.call_member(obj, "convert_to_dot_bracket", w.default_solver))
+                        return (kind, rec.levels_of(val) if kind == "value" else str(val))
+
+                    it = Interp(repo, MOD, {"pulp": lp.Pulp(lp.World())})
+                    solve(it, A)
+                    after = solve(it, B)
+                    alone = solve(Interp(repo, MOD, {"pulp": lp.Pulp(lp.World())}), B)
+                    if after != alone and not problems:
+                        problems.append((conv.where, f"convert_to_dot_bracket for the stems {B} (start, partner, length) gives levels {after[1]} when the stems {A} - same anchors, other lengths - were converted earlier in the same process, but {alone[1]} in a fresh process: something kept between calls identifies a structure by less than what the assignment depends on (the objective reads the stem lengths)", alone[1], after[1]))
     except NotEvaluable as ex:
         return str(ex)
     for site, msg, want, got in problems[:1]:
         chk.violation(rule, site, msg, f"{MOD}:{CLS}:history", expected=want, found=got)
     if not problems:
-        chk.ok(rule, anchor.where, f"evaluated {n} histories (every ordered pair of {', '.join(usable)} on one object, {len(structures)} knotted structures" + (", a faulted solve followed by a healthy one" if process else "") + "): each answer equals the answer of a fresh copy" + (f"; not evaluable and left out: {dropped}" if dropped else ""))
+        chk.ok(rule, anchor.where, f"evaluated {n} histories (every ordered pair of {', '.join(usable)}" + (f", each also after {', '.join(only_first)}" if only_first else "") + f" on one object, {len(structures)} knotted structures" + (", a faulted solve followed by a healthy one, a solve after a solve of a structure with the same stem anchors and other lengths" if process else "") + "): each answer equals the answer of a fresh copy" + (f"; not evaluable and left out: {dropped}" if dropped else ""))
     return None
 
 
@@ -1718,6 +1760,7 @@ def model_fact(chk) -> Optional[str]:
         # the fault paths belong to the function too (their verdicts are C13's; here they only have to be reached)
         run(KNOTTED, None, outcome=_raising_outcome)
         run(KNOTTED, None, outcome=_status_outcome(lp.LpStatusNotSolved))
+        run(KNOTTED, None, outcome=_status_outcome(lp.LpStatusInfeasible))
         run(KNOTTED, None, none_solver=True)
     except NotEvaluable as ex:
         return str(ex)
@@ -2018,6 +2061,26 @@ def text_forms_fact(chk) -> Optional[str]:
             ok = strands == [(1, 4, "ACGu", "([.)"), (5, 8, "GG-n", ".]AA"), (9, 10, "UU", "aa")]
         if not ok:
             problems.setdefault("multi", ("multistrand-text", ms.where, f"MultiStrandDotBracket.from_string does not number the strands consecutively and concatenate them in order: {val!r}"[:400], None, None))
+        # classes of a line: what it starts with.  A structure line may start with any of the 61 structure characters - '>' (the
+        # closing bracket of the 4th type) included -, a header starts with '>' too; with and without header lines
+        for c in "." + REF_OPEN + REF_CLOSE:
+            for headers in (True, False):
+                # two strands, the second one's structure line starts with c; every bracket type balanced over the whole text
+                if c == ".":
+                    t1, t2 = "(..)", ".(.)"
+                elif c in REF_OPEN:
+                    t1, t2 = "(..)", c + "." + REF_CLOSE[REF_OPEN.index(c)] + "."
+                else:
+                    t1, t2 = "(" + REF_OPEN[REF_CLOSE.index(c)] + ").", c + "(.)"
+                s1, s2 = "ACGU", "GGCC"
+                text = (">strand_A\n" if headers else "") + f"{s1}\n{t1}\n" + (">strand_B\n" if headers else "") + f"{s2}\n{t2}\n"
+                kind, val = attempt(lambda: it.call_member(it.instance("MultiStrandDotBracket"), "from_string", text))
+                got = None
+                if kind == "value" and isinstance(val, Instance):
+                    got = (val._attrs.get("sequence"), val._attrs.get("structure"), [(x._attrs.get("first"), x._attrs.get("last"), x._attrs.get("structure")) for x in val._attrs.get("strands", [])])
+                want = (s1 + s2, t1 + t2, [(1, 4, t1), (5, 8, t2)])
+                if got != want:
+                    problems.setdefault("multi-first-char", ("multistrand-text", ms.where, f"MultiStrandDotBracket.from_string loses or mis-pairs lines when a strand's structure line starts with `{c}` ({'with' if headers else 'without'} `>` header lines): {text!r} is read as {got if kind == 'value' else str(val)}", want, got))
     except NotEvaluable as ex:
         return str(ex)
     if not problems:
@@ -2031,4 +2094,65 @@ def text_forms_fact(chk) -> Optional[str]:
         chk.ok("bpseq-sequence", sq.where, "evaluated: sequence = the entries' letters in order")
         chk.ok("dotbracket-length", ds.where, "evaluated: a notation whose length differs from the sequence is refused")
         chk.ok("multistrand-text", ms.where, "evaluated: strands are numbered consecutively (first = previous last + 1) and concatenated in order")
+    return None
+
+
+# ---------------------------------------------------------------------------------------------------------------------
+# the list as it is printed (tertiary.Mapping2D3D.all_dot_brackets)
+
+
+def mapping_list_fact(chk) -> Optional[str]:
+    """Mapping2D3D.all_dot_brackets on 1..4 strands of different lengths: one text per member of BpSeq.all_dot_brackets, in
+    its order; strand i gets `>strand_<chain>`, its sequence and its own consecutive slice of the member's notation."""
+    repo = chk.repo
+    T3, MC = "tertiary", "Mapping2D3D"
+    if not repo.has_func(T3, f"{MC}.all_dot_brackets"):
+        return f"{MC}.all_dot_brackets not found"
+    fi = repo.func(T3, f"{MC}.all_dot_brackets")
+    chk.note_function(fi)
+    it = Interp(repo, T3)
+    problem = None
+    lengths = [3, 5, 2, 4]
+    n = 0
+    try:
+        for k in range(1, 5):
+            strands = [("ABCD"[i], "ACGUACGU"[: lengths[i]]) for i in range(k)]
+            total = sum(len(s) for _, s in strands)
+            marks = "abcdefghijklmnopqrstuvwxyz"[:total]
+            members = [_NS(sequence="".join(s for _, s in strands), structure=m) for m in (marks, marks.upper()[::-1])]
+            recv = it.instance(MC, attrs={}, over={"bpseq": _NS(all_dot_brackets=list(members), dot_bracket=members[0]), "strands_sequences": list(strands)}, module=T3)
+            kind, val = attempt(lambda: it.call_member(recv, "all_dot_brackets"))
+            n += 1
+
+            def text_of(structure: str) -> str:
+                out, i = [], 0
+                for chain, seq in strands:
+                    out += [f">strand_{chain}", seq, structure[i : i + len(seq)]]
+                    i += len(seq)
+                return "\n".join(out)
+
+            want = [text_of(m.structure) for m in members]
+            if kind != "value":
+                problem = problem or (site_of(fi, getattr(val, "lineno", None)), f"{MC}.all_dot_brackets {'raises ' + str(val) if kind == 'raise' else 'does not finish'} for {k} strand(s) of lengths {lengths[:k]}", want, None)
+            elif val != want and problem is None:
+                got = list(val) if isinstance(val, (list, tuple)) else repr(val)
+                why = ""
+                if isinstance(val, list) and len(val) == len(want):
+                    rows_g, rows_w = val[0].split("\n"), want[0].split("\n")
+                    bad = next((i for i in range(min(len(rows_g), len(rows_w))) if rows_g[i] != rows_w[i]), None)
+                    if bad is not None and bad % 3 == 2:
+                        why = f": strand {bad // 3 + 1} of {k} is given `{rows_g[bad]}` instead of its own slice `{rows_w[bad]}` of the notation (slices must be consecutive: each starts where the previous one ended)"
+                problem = (fi.where, f"{MC}.all_dot_brackets for {k} strand(s) of lengths {lengths[:k]} is not one text per member of BpSeq.all_dot_brackets with every strand's own slice{why}", want, got)
+    except NotEvaluable as ex:
+        return str(ex)
+    if not problem:
+        ref = getattr(repo, "reference", {}).get(T3)
+        for f in [fi] + [g for q, g in repo.module(T3).funcs.items() if q.startswith(MC + ".") and id(g.node) in it.cov and g is not fi and ref is not None and q not in ref.funcs]:
+            gaps = coverage_gaps(it.cov, f.node)
+            if gaps:
+                return f"the input classes do not reach all of {f.qualname}: " + "; ".join(gaps)
+    if problem:
+        chk.violation("mapping-list-fact", problem[0], problem[1], f"{T3}:{MC}.all_dot_brackets:text", expected=problem[2], found=problem[3])
+    else:
+        chk.ok("mapping-list-fact", fi.where, f"evaluated on {n} strand sets (1..4 strands of lengths {lengths}, two members): one text per member of BpSeq.all_dot_brackets in its order, strand i with its own consecutive slice")
     return None
